@@ -1,10 +1,10 @@
 ----------------------------- MODULE QuoteTrace -----------------------------
 (* Trace validation for C17.  Lines (written by `vh quote`):
      {"ev":"q","s":[bytes],"q":[bytes of Bquote(s)],"u":[bytes of Bunquote(q)],"err":""}
-     {"ev":"field","kind":"txt|name|target","s":[bytes],"text":"re-serialised line","same":B,"err":""}
+     {"ev":"field","kind":"txt|name|target","s":[bytes],"text":"re-serialised line","same":B,"payload":B,"err":""}
    q : Decode(q) = s, q free of separators, and the real decoder gave s back.
-   field : a record whose text / owner / target holds s, re-serialised by the real MarshalText and parsed again,
-           compiled to the same keys and values (the quoting did its job inside a real data-file line).        *)
+   field : a record whose text / owner / target holds s compiles to keys / values that hold exactly the bytes s
+           (payload), and re-serialised by the real MarshalText and parsed again compiles to the same keys and values.        *)
 EXTENDS Quote, Json, TLC
 
 Trace == ndJsonDeserialize("trace.ndjson")
@@ -18,7 +18,7 @@ Verdict(e) ==
      ELSE IF e.u # e.s THEN "unquote-differs"
      ELSE "ok")
   ELSE IF e.ev = "field" THEN
-    (IF e.err # "" THEN "field-rejected" ELSE IF ~e.same THEN "field-changed" ELSE "ok")
+    (IF e.err # "" THEN "field-rejected" ELSE IF ~e.payload THEN "field-does-not-hold-the-string" ELSE IF ~e.same THEN "field-changed" ELSE "ok")
   ELSE "unknown-event"
 
 Init == l = 1
